@@ -235,7 +235,6 @@ theorem stepOK {w : Width} (k : Kind) (c : Word w) (th : Thread w) (h : TInv th)
       case je => cases hz : th.zf <;> solve_case
       case jne => cases hz : th.zf <;> solve_case
       all_goals (try solve_case)
-      all_goals (trace_state; sorry)
     | cas e d =>
       cases hpc : th.pc <;> simp only [stepThread, htodo, hpc]
       case cmpxchg =>
@@ -244,19 +243,15 @@ theorem stepOK {w : Width} (k : Kind) (c : Word w) (th : Thread w) (h : TInv th)
         · rw [lockCmpxchg_ne hc]; solve_case
       case je => cases hz : th.zf <;> solve_case
       all_goals (try solve_case)
-      all_goals (trace_state; sorry)
     | xchg v =>
       cases hpc : th.pc <;> simp only [stepThread, htodo, hpc]
-      case xchg => cases hn : w.narrow <;> solve_case
+      case xchg => cases hn : w.narrow <;> simp only [Bool.false_eq_true, ↓reduceIte] <;> solve_case
       all_goals (try solve_case)
-      all_goals (trace_state; sorry)
     | load =>
       cases hpc : th.pc <;> simp only [stepThread, htodo, hpc]
       all_goals (try solve_case)
-      all_goals (trace_state; sorry)
     | store v =>
       cases hpc : th.pc <;> simp only [stepThread, htodo, hpc]
       all_goals (try solve_case)
-      all_goals (trace_state; sorry)
 
 end ChibiVerif.Atomics
